@@ -31,6 +31,7 @@ BUILTIN_EXC = {
     'StopIteration': ['Exception'],
     'SyntaxError': ['Exception'],
     'OSError': ['Exception'],
+    'InterruptedError': ['OSError'],
     'MemoryError': ['Exception'],
     # stands for "any exception class defined by user code (semantic actions)"
     'UserError': ['Exception'],
